@@ -2,6 +2,7 @@
 import json
 import logging
 import shutil
+import signal
 import warnings
 
 import numpy as np
@@ -9,9 +10,11 @@ import numpy as np
 import common
 
 PROP = "C08"
+COQCHK_ADMIT = ["IBL.C08.Adc"]
 HEADER = "From Coq Require Import ZArith List.\nImport ListNotations.\nFrom IBL.C08 Require Import Run."
 TRUSTED = [
-    "Coq 8.16.1 kernel + vm_compute (no native_compute); all C08 theorems: Closed under the global context",
+    "Coq 8.16.1 kernel + vm_compute (no native_compute); all C08 theorems closed under the global context except "
+    "C08_float32_exact_on_grid (Flocq binary32/64: sig_forall_dec, sig_not_dec, functional_extensionality_dep, classic)",
     "hand-written model coq/C08/Model.v of neuropixel.{rc2xy,xy2rc,adc_shifts,dense_layout,trace_header,"
     "split_trace_header} and spikeglx.{geometry_from_meta,_map_channels_from_meta,_split_geometry_into_shanks}, "
     "tied to /repo/src by this run's correspondence",
@@ -99,21 +102,113 @@ def meta_text(case):
 # ---------------------------------------------------------------------------
 # canonicalisation
 # ---------------------------------------------------------------------------
+def _scalar_int(a):
+    """python int of an integral number below 2^40, BAD for anything else (str, None, nested, nan, bool)."""
+    try:
+        if isinstance(a, (bool, np.bool_)):
+            return BAD
+        if isinstance(a, (int, np.integer)):
+            return int(a) if abs(int(a)) < 2 ** 40 else BAD
+        if isinstance(a, (float, np.floating)):
+            a = float(a)
+            return int(a) if (a == a and abs(a) < 2 ** 40 and a.is_integer()) else BAD
+    except Exception:
+        pass
+    return BAD
+
+
+def _items(v):
+    """the items of a 1-D sequence; a scalar / None / unsized object has none; rows of a 2-D array are items
+    (and canonicalise to BAD)."""
+    if isinstance(v, (str, bytes, dict)) or v is None:
+        return []
+    try:
+        return list(v)
+    except Exception:
+        return []
+
+
 def ints(v):
-    v = np.asarray(v)
-    out = []
-    for a in v.tolist():
-        out.append(int(a) if (isinstance(a, int) or (a == a and abs(a) < 2 ** 40 and float(a).is_integer())) else BAD)
-    return out
+    return [_scalar_int(a) for a in _items(v)]
 
 
 def shift_codes(v, gen):
     a, cyc = ADC[gen]
     lut = {float(np.float64(k) / cyc): k for k in range(a)}
-    return [lut.get(float(x), BAD) for x in np.asarray(v).tolist()]
+    out = []
+    for x in _items(v):
+        try:
+            out.append(lut.get(float(x), BAD) if isinstance(x, (int, float, np.integer, np.floating)) else BAD)
+        except Exception:
+            out.append(BAD)
+    return out
+
+
+class Malformed(Exception):
+    """the implementation returned something that is not a geometry dictionary"""
+
+
+class CaseTimeout(Exception):
+    pass
+
+
+class AbortRun(BaseException):
+    """too many implementation calls ran into the time limit: stop generating, report what was seen"""
+
+
+_TIMEOUTS = [0]
+CASE_LIMIT_S = 20          # a 384-site case takes about 0.1 s
+MAX_TIMEOUTS = 3
+
+
+def _alarm(signum, frame):
+    _TIMEOUTS[0] += 1
+    if _TIMEOUTS[0] >= MAX_TIMEOUTS:
+        raise AbortRun()
+    raise CaseTimeout("implementation did not return within %d s" % CASE_LIMIT_S)
+
+
+class time_limit:
+    """SIGALRM-based limit for pure-Python / NumPy implementation calls (main thread)."""
+    def __enter__(self):
+        self.old = signal.signal(signal.SIGALRM, _alarm)
+        signal.setitimer(signal.ITIMER_REAL, CASE_LIMIT_S)
+
+    def __exit__(self, et, ev, tb):
+        signal.setitimer(signal.ITIMER_REAL, 0)
+        signal.signal(signal.SIGALRM, self.old)
+        return False
+
+
+class guard:
+    """One case = implementation calls + canonicalisation + oracle.  Whatever goes wrong inside (an exception
+    of any type, an unusable return value, a hang) is a failing input of the property, never a harness crash."""
+    def __init__(self, ctx, d, what):
+        self.ctx, self.d, self.what = ctx, d, what
+        self.tl = time_limit()
+
+    def __enter__(self):
+        self.tl.__enter__()
+        return self
+
+    def __exit__(self, et, ev, tb):
+        self.tl.__exit__(et, ev, tb)
+        if et is None or not issubclass(et, Exception):
+            return False
+        self.ctx.fail("%s raised or returned something unusable: %r" % (self.what, ev), dict(self.d),
+                      {"clause": "exception"})
+        return True
+
+
+def limited(fn, *a, **k):
+    with time_limit():
+        return fn(*a, **k)
 
 
 def canon_geom(g, gen, flag_default=None):
+    if not hasattr(g, "keys") or any(k not in g for k in KEYS if k != "flag"):
+        raise Malformed("not a geometry dictionary: %r" % (type(g).__name__ if not hasattr(g, "keys")
+                                                          else sorted(map(str, g.keys())),))
     out = {}
     for k in KEYS:
         if k == "flag" and k not in g:
@@ -142,6 +237,10 @@ def q_plain(spikeglx, md, gen):
 
 
 def run_geometry(case, tdir, rng=None):
+    return limited(_run_geometry, case, tdir, rng)
+
+
+def _run_geometry(case, tdir, rng=None):
     """-> dict with the canonicalised observations of all public entry points.  The queries are issued in a
     per-case random order (rng), the first one is repeated at the end, and the lf companion file of the same
     probe (same site table) is queried after the ap file: all in one process, on the same map string."""
@@ -399,7 +498,12 @@ def run(ctx):
     # Adc.v holds the exhaustive vm_compute sweeps of the ADC loop (4 x 384 x 384): compiled and kernel-checked by
     # coqc in the build; the thorough tier's coqchk (no VM, would take tens of minutes) takes that module as given
     # and re-checks everything else (Canon.v included, about 75 s)
-    common.proof_obligations(ctx, whitelist=[], coqchk_admit=["IBL.C08.Adc"])
+    # C08_float32_exact_on_grid evaluates Flocq floats: it inherits the four standard-library axioms of the reals;
+    # every other theorem is closed under the global context (checked below)
+    common.proof_obligations(ctx, whitelist=sorted(common.STDLIB_AXIOMS), coqchk_admit=COQCHK_ADMIT)
+    for name, ax in ctx.theorems.items():
+        if name != "C08_float32_exact_on_grid" and ax != "Closed under the global context":
+            ctx.broken_proofs.append({"theorem": name, "why": "expected to be closed, depends on %s" % (ax,)})
     logging.getLogger("ibllib").setLevel(logging.ERROR)    # "returning defaults" warnings of the no-map cases
     rng = ctx.rng
     tdir = common.tmpdir("C08_")
@@ -415,148 +519,155 @@ def run(ctx):
     evaluations = 0
     try:
         try:
-            n_fix = fixture_pairs(ctx)
+            n_fix = limited(fixture_pairs, ctx)
         except Exception as e:
             ctx.fail("reading the shipped fixture pairs raised %r" % (e,), {"fn": "fixture_pairs"},
                      {"clause": "exception"})
             n_fix = 0
         ctx.coverage["fixture_convention_sites"] = n_fix
-        # ---------------- geometry_from_meta & friends ----------------
-        tables = []
-        kinds = ["block", "random", "random", "swaps", "reversed", "fewrows", "interleaved", "highrows"]
-        ntab = 5000 if ctx.thorough() else 110
-        for t in range(ntab):
-            gen = rng.choice(["NP1", "NP1", "NP2.1", "NP2.4", "NP2.4", "NPultra"])
-            kind = rng.choice(kinds)
-            r = rng.random()
-            n = rng.choice(SIZES) if r < 0.5 else (rng.randrange(1, 60) if r < 0.9 else rng.randrange(60, 385))
-            if (ctx.thorough() and t % 10 == 0) or (not ctx.thorough() and t % 12 == 0):
-                n = rng.choice([384, 383, 276])
-            tables.append((gen, kind, gen_sites(rng, gen, n, kind)))
-        # the whole of every grid, in natural order, 384 sites at a time (every site of every grid is seen)
-        for gen in ("NP1", "NP2.1", "NP2.4"):
-            ns, ncol, nrow = SITE_GRID[gen]
-            total = ns * ncol * nrow
-            starts = list(range(0, total, 384))
-            if not ctx.thorough():
-                starts = starts[:2] + starts[-1:]
-            for st in starts:
-                m = min(384, total - st)
-                tables.append((gen, "grid", [natural(gen, st + i) + (1,) for i in range(m)]))
-        cid = 0
-        for gen, kind, sites in tables:
-            dist["tables"] += 1
-            dist["gen"][gen] += 1
-            dist["kinds"][kind] = dist["kinds"].get(kind, 0) + 1
-            encs = [0] if gen == "NPultra" else [0, 1]
-            shanks = sorted({s[0] for s in sites})
-            splits = [None]
-            if gen == "NP2.4" and rng.random() < 0.7:
-                splits.append(rng.choice(shanks))        # a split file exists only for a shank that has sites
-            per_enc = {}
-            tmpl = rng.choice(TEMPLATES[gen])
-            tcode = rng.choice(ALT_TYPE[gen]) if gen in ALT_TYPE else None
-            for split in splits:
-                for enc in encs:
-                    case = make_case(rng, cid, gen, sites, enc, split, template=tmpl, type_code=tcode, kind=kind)
+        try:
+            # ---------------- geometry_from_meta & friends ----------------
+            tables = []
+            kinds = ["block", "random", "random", "swaps", "reversed", "fewrows", "interleaved", "highrows"]
+            ntab = 5000 if ctx.thorough() else 110
+            for t in range(ntab):
+                gen = rng.choice(["NP1", "NP1", "NP2.1", "NP2.4", "NP2.4", "NPultra"])
+                kind = rng.choice(kinds)
+                r = rng.random()
+                n = rng.choice(SIZES) if r < 0.5 else (rng.randrange(1, 60) if r < 0.9 else rng.randrange(60, 385))
+                if (ctx.thorough() and t % 10 == 0) or (not ctx.thorough() and t % 12 == 0):
+                    n = rng.choice([384, 383, 276])
+                tables.append((gen, kind, gen_sites(rng, gen, n, kind)))
+            # the whole of every grid, in natural order, 384 sites at a time (every site of every grid is seen)
+            for gen in ("NP1", "NP2.1", "NP2.4"):
+                ns, ncol, nrow = SITE_GRID[gen]
+                total = ns * ncol * nrow
+                starts = list(range(0, total, 384))
+                if not ctx.thorough():
+                    starts = starts[:2] + starts[-1:]
+                for st in starts:
+                    m = min(384, total - st)
+                    tables.append((gen, "grid", [natural(gen, st + i) + (1,) for i in range(m)]))
+            cid = 0
+            for gen, kind, sites in tables:
+                dist["tables"] += 1
+                dist["gen"][gen] += 1
+                dist["kinds"][kind] = dist["kinds"].get(kind, 0) + 1
+                encs = [0] if gen == "NPultra" else [0, 1]
+                shanks = sorted({s[0] for s in sites})
+                splits = [None]
+                if gen == "NP2.4" and rng.random() < 0.7:
+                    splits.append(rng.choice(shanks))        # a split file exists only for a shank that has sites
+                per_enc = {}
+                tmpl = rng.choice(TEMPLATES[gen])
+                tcode = rng.choice(ALT_TYPE[gen]) if gen in ALT_TYPE else None
+                for split in splits:
+                    for enc in encs:
+                        case = make_case(rng, cid, gen, sites, enc, split, template=tmpl, type_code=tcode, kind=kind)
+                        cid += 1
+                        try:
+                            obs = run_geometry(case, tdir, rng)
+                        except Exception as e:
+                            ctx.fail("geometry of a valid site table raised %r" % (e,), describe(case),
+                                     {"clause": "exception"})
+                            continue
+                        for clause, msg in oracle_geometry(case, obs):
+                            ctx.fail(msg, describe(case), {"clause": clause})
+                        per_enc[(split, enc)] = obs
+                        for srt in (False, True):
+                            g, inds = obs[("gfm", srt)]
+                            inputs.append(enc_case_input(case, srt))
+                            outputs.append([1] + flat_geom(g) + inds)
+                            descr.append(describe(case, srt))
+                            evaluations += 1
+                        n = len(sites)
+                        dist["shank_map" if enc == 0 else "geom_map"] += 1
+                        dist["split"] += split is not None
+                        dist["n_le_12"] += n <= 12
+                        dist["n_ge_276"] += n >= 276
+                        ident = obs[("gfm", True)][1] == list(range(len(obs[("gfm", True)][1])))
+                        dist["already_sorted"] += ident
+                        if not ident:
+                            nontrivial.add((gen, enc, split, tuple(map(tuple, sites))))
+                        if len(samples) < 6 and not ident and n <= 8:
+                            samples.append({"gen": gen, "encoding": ["shank map", "geometry map"][enc], "split": split,
+                                            "entries": case["entries"], "sorted_index": obs[("gfm", True)][1],
+                                            "sorted_x": obs[("gfm", True)][0]["x"],
+                                            "sorted_y": obs[("gfm", True)][0]["y"]})
+                    # the two encodings of one table give the same geometry
+                    if (split, 0) in per_enc and (split, 1) in per_enc and \
+                            {k: v for k, v in per_enc[(split, 0)].items() if k != "query_order"} != \
+                            {k: v for k, v in per_enc[(split, 1)].items() if k != "query_order"}:
+                        ctx.fail("shank-map and geometry-map encodings of the same sites give different geometries",
+                                 describe(make_case(rng, -1, gen, sites, 0, split, template=tmpl, type_code=tcode)),
+                                 {"clause": "encodings"})
+                # a split shank is the restriction of its parent
+                for split in splits[1:]:
+                    for enc in encs:
+                        if (None, enc) not in per_enc or (split, enc) not in per_enc:
+                            continue
+                        for srt in (False, True):
+                            pg, _ = per_enc[(None, enc)][("gfm", srt)]
+                            cg, _ = per_enc[(split, enc)][("gfm", srt)]
+                            idx = [i for i, s in enumerate(pg["shank"]) if s == split]
+                            rank = {v: r for r, v in enumerate(sorted(pg["ind"][i] for i in idx))}
+                            ok = all(cg[k] == [pg[k][i] for i in idx] for k in KEYS if k != "ind") and \
+                                cg["ind"] == [rank[pg["ind"][i]] for i in idx]
+                            if not ok:
+                                ctx.fail("geometry of a split shank is not the restriction of the parent geometry",
+                                         describe(make_case(rng, -1, gen, sites, enc, split, template=tmpl,
+                                                            type_code=tcode), srt), {"clause": "split"})
+            # ---------------- no map / empty map -> canonical default ----------------
+            for gen in GEN_CODE:
+                for enc, entries in ((2, None), (0, [])):
+                    case = make_case(rng, cid, gen, [], enc, None, kind="default", nsaved=384)
                     cid += 1
                     try:
-                        obs = run_geometry(case, tdir, rng)
+                        obs = run_geometry(case, tdir)
                     except Exception as e:
-                        ctx.fail("geometry of a valid site table raised %r" % (e,), describe(case),
-                                 {"clause": "exception"})
+                        ctx.fail("geometry without a site table raised %r" % (e,), describe(case), {"clause": "exception"})
                         continue
-                    for clause, msg in oracle_geometry(case, obs):
-                        ctx.fail(msg, describe(case), {"clause": clause})
-                    per_enc[(split, enc)] = obs
                     for srt in (False, True):
                         g, inds = obs[("gfm", srt)]
                         inputs.append(enc_case_input(case, srt))
                         outputs.append([1] + flat_geom(g) + inds)
                         descr.append(describe(case, srt))
                         evaluations += 1
-                    n = len(sites)
-                    dist["shank_map" if enc == 0 else "geom_map"] += 1
-                    dist["split"] += split is not None
-                    dist["n_le_12"] += n <= 12
-                    dist["n_ge_276"] += n >= 276
-                    ident = obs[("gfm", True)][1] == list(range(len(obs[("gfm", True)][1])))
-                    dist["already_sorted"] += ident
-                    if not ident:
-                        nontrivial.add((gen, enc, split, tuple(map(tuple, sites))))
-                    if len(samples) < 6 and not ident and n <= 8:
-                        samples.append({"gen": gen, "encoding": ["shank map", "geometry map"][enc], "split": split,
-                                        "entries": case["entries"], "sorted_index": obs[("gfm", True)][1],
-                                        "sorted_x": obs[("gfm", True)][0]["x"],
-                                        "sorted_y": obs[("gfm", True)][0]["y"]})
-                # the two encodings of one table give the same geometry
-                if (split, 0) in per_enc and (split, 1) in per_enc and \
-                        {k: v for k, v in per_enc[(split, 0)].items() if k != "query_order"} != \
-                        {k: v for k, v in per_enc[(split, 1)].items() if k != "query_order"}:
-                    ctx.fail("shank-map and geometry-map encodings of the same sites give different geometries",
-                             describe(make_case(rng, -1, gen, sites, 0, split, template=tmpl, type_code=tcode)),
-                             {"clause": "encodings"})
-            # a split shank is the restriction of its parent
-            for split in splits[1:]:
-                for enc in encs:
-                    if (None, enc) not in per_enc or (split, enc) not in per_enc:
-                        continue
-                    for srt in (False, True):
-                        pg, _ = per_enc[(None, enc)][("gfm", srt)]
-                        cg, _ = per_enc[(split, enc)][("gfm", srt)]
-                        idx = [i for i, s in enumerate(pg["shank"]) if s == split]
-                        rank = {v: r for r, v in enumerate(sorted(pg["ind"][i] for i in idx))}
-                        ok = all(cg[k] == [pg[k][i] for i in idx] for k in KEYS if k != "ind") and \
-                            cg["ind"] == [rank[pg["ind"][i]] for i in idx]
-                        if not ok:
-                            ctx.fail("geometry of a split shank is not the restriction of the parent geometry",
-                                     describe(make_case(rng, -1, gen, sites, enc, split, template=tmpl,
-                                                        type_code=tcode), srt), {"clause": "split"})
-        # ---------------- no map / empty map -> canonical default ----------------
-        for gen in GEN_CODE:
-            for enc, entries in ((2, None), (0, [])):
-                case = make_case(rng, cid, gen, [], enc, None, kind="default", nsaved=384)
+                    dist["no_map"] += 1
+            # ---------------- saved-channel subsets (F-C08-a) ----------------
+            for gen, sub in (("NP1", (24, 60)), ("NP2.1", (32, 40)), ("NP2.4", (100, 199)), ("NP1", (0, 99)),
+                             ("NP1", (1, 30))):
+                a, b = sub
+                sites = [natural(gen, c) + (1,) for c in range(a, b + 1)]
+                case = make_case(rng, cid, gen, sites, rng.choice([0, 1]), None, kind="subset",
+                                 subset_text="%d:%d,384" % (a, b), orig_channels=list(range(a, b + 1)))
                 cid += 1
                 try:
                     obs = run_geometry(case, tdir)
                 except Exception as e:
-                    ctx.fail("geometry without a site table raised %r" % (e,), describe(case), {"clause": "exception"})
+                    ctx.fail("geometry of a saved-channel subset raised %r" % (e,), describe(case), {"clause": "exception"})
                     continue
+                for clause, msg in oracle_geometry(case, obs):
+                    ctx.fail(msg, describe(case), {"clause": clause, "subset": "prefix" if a == 0 else "not_prefix"})
+                dist["subset_offset"] += a != 0
                 for srt in (False, True):
                     g, inds = obs[("gfm", srt)]
                     inputs.append(enc_case_input(case, srt))
                     outputs.append([1] + flat_geom(g) + inds)
                     descr.append(describe(case, srt))
                     evaluations += 1
-                dist["no_map"] += 1
-        # ---------------- saved-channel subsets (F-C08-a) ----------------
-        for gen, sub in (("NP1", (24, 60)), ("NP2.1", (32, 40)), ("NP2.4", (100, 199)), ("NP1", (0, 99)),
-                         ("NP1", (1, 30))):
-            a, b = sub
-            sites = [natural(gen, c) + (1,) for c in range(a, b + 1)]
-            case = make_case(rng, cid, gen, sites, rng.choice([0, 1]), None, kind="subset",
-                             subset_text="%d:%d,384" % (a, b), orig_channels=list(range(a, b + 1)))
-            cid += 1
-            try:
-                obs = run_geometry(case, tdir)
-            except Exception as e:
-                ctx.fail("geometry of a saved-channel subset raised %r" % (e,), describe(case), {"clause": "exception"})
-                continue
-            for clause, msg in oracle_geometry(case, obs):
-                ctx.fail(msg, describe(case), {"clause": clause, "subset": "prefix" if a == 0 else "not_prefix"})
-            dist["subset_offset"] += a != 0
-            for srt in (False, True):
-                g, inds = obs[("gfm", srt)]
-                inputs.append(enc_case_input(case, srt))
-                outputs.append([1] + flat_geom(g) + inds)
-                descr.append(describe(case, srt))
-                evaluations += 1
-        # ---------------- trace_header / split_trace_header / adc_shifts / rc2xy / xy2rc ----------------
-        evaluations += run_layouts(ctx, inputs, outputs, descr, dist, tdir)
-        evaluations += run_parser(ctx, inputs, outputs, descr, dist)
-        evaluations += run_npultra_geom(ctx, inputs, outputs, descr, dist, tdir)
-        evaluations += run_files(ctx, inputs, outputs, descr, dist, tdir)
-        common.correspondence(ctx, PROP, HEADER, inputs, outputs, lambda i: descr[i], n_kernel=60)
+            # ---------------- trace_header / split_trace_header / adc_shifts / rc2xy / xy2rc ----------------
+            evaluations += run_layouts(ctx, inputs, outputs, descr, dist, tdir)
+            evaluations += run_parser(ctx, inputs, outputs, descr, dist)
+            evaluations += run_npultra_geom(ctx, inputs, outputs, descr, dist, tdir)
+            evaluations += run_files(ctx, inputs, outputs, descr, dist, tdir)
+        except AbortRun:
+            ctx.fail("implementation calls keep running into the %d s limit (hang); generation stopped" % CASE_LIMIT_S,
+                     {"fn": "time limit"}, {"clause": "exception"})
+        m = min(len(inputs), len(outputs), len(descr))
+        del inputs[m:], outputs[m:], descr[m:]
+        if inputs:
+            common.correspondence(ctx, PROP, HEADER, inputs, outputs, lambda i: descr[i], n_kernel=60)
     finally:
         shutil.rmtree(tdir, ignore_errors=True)
     return common.finish(
@@ -585,72 +696,74 @@ def run_layouts(ctx, inputs, outputs, descr, dist, tdir):
     combos = [("NP1", 1, 1), ("NP2.1", 2, 1), ("NP2.1", 2.1, 1), ("NP2.4", 2.4, 1), ("NP2.4", 2.4, 4),
               ("NP2.1", 2, 4), ("NPultra", "NPultra", 1)]
     for gen, ver, nshank in combos:
-        try:
-            h = neuropixel.trace_header(version=ver, nshank=nshank)
-        except Exception as e:
-            ctx.fail("trace_header(%r, %r) raised %r" % (ver, nshank, e), {"version": ver, "nshank": nshank},
-                     {"clause": "exception"})
-            continue
-        ch = canon_geom(h, gen)
         d = {"fn": "trace_header", "version": ver, "nshank": nshank}
-        # oracle: the published layouts
-        c = np.arange(384)
-        dx, x0, dy, y0 = GRID[gen]
-        if gen == "NP1":
-            row, col, shank = c // 2, np.array([2, 0, 3, 1])[c % 4], c * 0
-        elif gen == "NPultra":
-            row, col, shank = c // 8, c % 8, c * 0
-        elif nshank == 1:
-            row, col, shank = c // 2, c % 2, c * 0
-        else:
-            b = c // 48
-            row = (c % 48) // 2 + 24 * np.array([0, 0, 1, 1, 0, 0, 1, 1])[b]
-            col, shank = c % 2, np.array([0, 1, 0, 1, 2, 3, 2, 3])[b]
-        exp = {"ind": c, "row": row, "col": col, "shank": shank, "x": col * dx + x0, "y": row * dy + y0,
-               "sample_shift": np.array([adc_expected(gen, int(i))[0] for i in c]),
-               "adc": np.array([adc_expected(gen, int(i))[1] for i in c])}
-        for k, v in exp.items():
-            if ch[k] != [int(a) for a in v]:
-                ctx.fail("trace_header column %s is not the canonical dense layout" % k, d, {"clause": "canonical"})
-                break
-        # the canonical layout is the geometry of the canonical dense metadata (unsorted)
-        canon_sites = []
-        for i in range(384):
-            r_, c_, s_ = int(row[i]), int(col[i]), int(shank[i])
-            canon_sites.append((s_, (i % 2) if gen == "NP1" else c_, r_, 1))
-        for enc in ([0] if gen == "NPultra" else [0, 1]):
-            case = make_case(rng, 900000 + nev, gen, canon_sites, enc, None, kind="canonical")
+        with guard(ctx, d, "trace_header / split_trace_header"):
             try:
-                obs = run_geometry(case, tdir)
-                if obs[("gfm", False)][0] != ch:
-                    ctx.fail("trace_header differs from the geometry of the canonical dense metadata", d,
-                             {"clause": "canonical"})
-                if gen == "NP1" and obs[("gfm", True)][1] != list(range(384)):
-                    ctx.fail("sorting does not preserve the original NP1 order", d, {"clause": "canonical"})
+                h = neuropixel.trace_header(version=ver, nshank=nshank)
             except Exception as e:
-                ctx.fail("geometry of canonical metadata raised %r" % (e,), describe(case), {"clause": "exception"})
-        inputs.append([1, GEN_CODE[gen], nshank, -1])
-        outputs.append([1] + flat_geom(ch))
-        descr.append(d)
-        nev += 1
-        dist["trace_header"] += 1
-        for s in range(-1, 5):
-            if s < 0:
+                ctx.fail("trace_header(%r, %r) raised %r" % (ver, nshank, e), {"version": ver, "nshank": nshank},
+                         {"clause": "exception"})
                 continue
-            try:
-                hs = neuropixel.split_trace_header(h, shank=s)
-                chs = canon_geom(hs, gen)
-            except Exception as e:
-                ctx.fail("split_trace_header raised %r" % (e,), dict(d, shank=s), {"clause": "exception"})
-                continue
-            idx = [i for i in range(384) if ch["shank"][i] == s]
-            if any(chs[k] != [ch[k][i] for i in idx] for k in KEYS):
-                ctx.fail("split_trace_header is not the restriction to the shank",
-                         dict(d, shank=s), {"clause": "split"})
-            inputs.append([1, GEN_CODE[gen], nshank, s])
-            outputs.append([1] + flat_geom(chs))
-            descr.append(dict(d, fn="split_trace_header", shank=s))
+            ch = canon_geom(h, gen)
+            d = {"fn": "trace_header", "version": ver, "nshank": nshank}
+            # oracle: the published layouts
+            c = np.arange(384)
+            dx, x0, dy, y0 = GRID[gen]
+            if gen == "NP1":
+                row, col, shank = c // 2, np.array([2, 0, 3, 1])[c % 4], c * 0
+            elif gen == "NPultra":
+                row, col, shank = c // 8, c % 8, c * 0
+            elif nshank == 1:
+                row, col, shank = c // 2, c % 2, c * 0
+            else:
+                b = c // 48
+                row = (c % 48) // 2 + 24 * np.array([0, 0, 1, 1, 0, 0, 1, 1])[b]
+                col, shank = c % 2, np.array([0, 1, 0, 1, 2, 3, 2, 3])[b]
+            exp = {"ind": c, "row": row, "col": col, "shank": shank, "x": col * dx + x0, "y": row * dy + y0,
+                   "sample_shift": np.array([adc_expected(gen, int(i))[0] for i in c]),
+                   "adc": np.array([adc_expected(gen, int(i))[1] for i in c])}
+            for k, v in exp.items():
+                if ch[k] != [int(a) for a in v]:
+                    ctx.fail("trace_header column %s is not the canonical dense layout" % k, d, {"clause": "canonical"})
+                    break
+            # the canonical layout is the geometry of the canonical dense metadata (unsorted)
+            canon_sites = []
+            for i in range(384):
+                r_, c_, s_ = int(row[i]), int(col[i]), int(shank[i])
+                canon_sites.append((s_, (i % 2) if gen == "NP1" else c_, r_, 1))
+            for enc in ([0] if gen == "NPultra" else [0, 1]):
+                case = make_case(rng, 900000 + nev, gen, canon_sites, enc, None, kind="canonical")
+                try:
+                    obs = run_geometry(case, tdir)
+                    if obs[("gfm", False)][0] != ch:
+                        ctx.fail("trace_header differs from the geometry of the canonical dense metadata", d,
+                                 {"clause": "canonical"})
+                    if gen == "NP1" and obs[("gfm", True)][1] != list(range(384)):
+                        ctx.fail("sorting does not preserve the original NP1 order", d, {"clause": "canonical"})
+                except Exception as e:
+                    ctx.fail("geometry of canonical metadata raised %r" % (e,), describe(case), {"clause": "exception"})
+            inputs.append([1, GEN_CODE[gen], nshank, -1])
+            outputs.append([1] + flat_geom(ch))
+            descr.append(d)
             nev += 1
+            dist["trace_header"] += 1
+            for s in range(-1, 5):
+                if s < 0:
+                    continue
+                try:
+                    hs = neuropixel.split_trace_header(h, shank=s)
+                    chs = canon_geom(hs, gen)
+                except Exception as e:
+                    ctx.fail("split_trace_header raised %r" % (e,), dict(d, shank=s), {"clause": "exception"})
+                    continue
+                idx = [i for i in range(384) if ch["shank"][i] == s]
+                if any(chs[k] != [ch[k][i] for i in idx] for k in KEYS):
+                    ctx.fail("split_trace_header is not the restriction to the shank",
+                             dict(d, shank=s), {"clause": "split"})
+                inputs.append([1, GEN_CODE[gen], nshank, s])
+                outputs.append([1] + flat_geom(chs))
+                descr.append(dict(d, fn="split_trace_header", shank=s))
+                nev += 1
     # adc_shifts
     ncs = sorted({0, 1, 2, 11, 12, 13, 15, 16, 17, 23, 24, 25, 26, 31, 32, 33, 34, 47, 48, 49, 191, 192, 193, 276,
                   382, 383, 384, 385, 500} | {rng.randrange(0, 385) for _ in range(12)})
@@ -658,29 +771,30 @@ def run_layouts(ctx, inputs, outputs, descr, dist, tdir):
         for ver in VERSION_ARG[gen]:
             for nc in ncs:
                 d = {"fn": "adc_shifts", "version": ver, "nc": nc}
-                try:
-                    sh, adc = neuropixel.adc_shifts(version=ver, nc=nc)
-                except Exception as e:
-                    ctx.fail("adc_shifts raised %r" % (e,), d, {"clause": "exception"})
-                    continue
-                shc, adcc = shift_codes(sh, gen), ints(adc)
-                m = min(nc, 384)
-                a, _ = ADC[gen]
-                if shc != [adc_expected(gen, c)[0] for c in range(m)] or \
-                        adcc != [adc_expected(gen, c)[1] for c in range(m)]:
-                    ctx.fail("adc_shifts is not the per-channel table", d, {"clause": "adc_table"})
-                if nc >= 384:
-                    for g_ in set(adcc):
-                        dl = [shc[i] for i in range(384) if adcc[i] == g_]
-                        if dl != list(range(a)):
-                            ctx.fail("an ADC does not serve its channels at distinct evenly spaced delays", d,
-                                     {"clause": "adc_table"})
-                            break
-                inputs.append([2, GEN_CODE[gen], nc])
-                outputs.append([1, len(shc)] + shc + adcc)
-                descr.append(d)
-                nev += 1
-                dist["adc_shifts"] += 1
+                with guard(ctx, d, "adc_shifts"):
+                    try:
+                        sh, adc = neuropixel.adc_shifts(version=ver, nc=nc)
+                    except Exception as e:
+                        ctx.fail("adc_shifts raised %r" % (e,), d, {"clause": "exception"})
+                        continue
+                    shc, adcc = shift_codes(sh, gen), ints(adc)
+                    m = min(nc, 384)
+                    a, _ = ADC[gen]
+                    if shc != [adc_expected(gen, c)[0] for c in range(m)] or \
+                            adcc != [adc_expected(gen, c)[1] for c in range(m)]:
+                        ctx.fail("adc_shifts is not the per-channel table", d, {"clause": "adc_table"})
+                    if nc >= 384:
+                        for g_ in set(adcc):
+                            dl = [shc[i] for i in range(384) if adcc[i] == g_]
+                            if dl != list(range(a)):
+                                ctx.fail("an ADC does not serve its channels at distinct evenly spaced delays", d,
+                                         {"clause": "adc_table"})
+                                break
+                    inputs.append([2, GEN_CODE[gen], nc])
+                    outputs.append([1, len(shc)] + shc + adcc)
+                    descr.append(d)
+                    nev += 1
+                    dist["adc_shifts"] += 1
     # rc2xy / xy2rc
     for gen in GEN_CODE:
         dx, x0, dy, y0 = GRID[gen]
@@ -692,34 +806,35 @@ def run_layouts(ctx, inputs, outputs, descr, dist, tdir):
                 b = [rng.choice([rng.randrange(-50, 5000), rng.randrange(0, 8) * dx + x0, x0, y0, 0])
                      for _ in range(n)]
                 d = {"fn": "rc2xy/xy2rc", "version": ver, "a": a, "b": b}
-                try:
-                    xy = neuropixel.rc2xy(np.array(a), np.array(b), version=ver)
-                    rc = neuropixel.xy2rc(np.array(a), np.array(b), version=ver)
-                    col, row = np.asarray(rc["col"], dtype=float), np.asarray(rc["row"], dtype=float)
-                    # inverse on the grid: rc2xy(xy2rc) and xy2rc(rc2xy)
-                    back = neuropixel.rc2xy(rc["row"], rc["col"], version=ver)
-                    fwd = neuropixel.xy2rc(xy["x"], xy["y"], version=ver)
-                except Exception as e:
-                    ctx.fail("rc2xy / xy2rc raised %r" % (e,), d, {"clause": "exception"})
-                    continue
-                if not (np.allclose(back["x"], a, rtol=0, atol=1e-9) and np.allclose(back["y"], b, rtol=0, atol=1e-9)
-                        and np.array_equal(fwd["row"], a) and np.array_equal(fwd["col"], b)):
-                    ctx.fail("rc2xy and xy2rc are not inverses", d, {"clause": "rc_xy"})
+                with guard(ctx, d, "rc2xy / xy2rc"):
+                    try:
+                        xy = neuropixel.rc2xy(np.array(a), np.array(b), version=ver)
+                        rc = neuropixel.xy2rc(np.array(a), np.array(b), version=ver)
+                        col, row = np.asarray(rc["col"], dtype=float), np.asarray(rc["row"], dtype=float)
+                        # inverse on the grid: rc2xy(xy2rc) and xy2rc(rc2xy)
+                        back = neuropixel.rc2xy(rc["row"], rc["col"], version=ver)
+                        fwd = neuropixel.xy2rc(xy["x"], xy["y"], version=ver)
+                    except Exception as e:
+                        ctx.fail("rc2xy / xy2rc raised %r" % (e,), d, {"clause": "exception"})
+                        continue
+                    if not (np.allclose(back["x"], a, rtol=0, atol=1e-9) and np.allclose(back["y"], b, rtol=0, atol=1e-9)
+                            and np.array_equal(fwd["row"], a) and np.array_equal(fwd["col"], b)):
+                        ctx.fail("rc2xy and xy2rc are not inverses", d, {"clause": "rc_xy"})
 
-                def num(v, den):
-                    m = int(round(float(v) * den))
-                    return m if float(m) / den == float(v) else BAD
-                out = ints(xy["x"]) + ints(xy["y"]) + [dx, dy]
-                out += [num(v, dx) for v in col] + [num(v, dy) for v in row]
-                for v in col:
-                    out += [1, int(v)] if float(v).is_integer() else [0]
-                for v in row:
-                    out += [1, int(v)] if float(v).is_integer() else [0]
-                inputs.append([3, GEN_CODE[gen], n] + a + b)
-                outputs.append(out)
-                descr.append(d)
-                nev += 1
-                dist["rcxy"] += 1
+                    def num(v, den):
+                        m = int(round(float(v) * den))
+                        return m if float(m) / den == float(v) else BAD
+                    out = ints(xy["x"]) + ints(xy["y"]) + [dx, dy]
+                    out += [num(v, dx) for v in col] + [num(v, dy) for v in row]
+                    for v in col:
+                        out += [1, int(v)] if float(v).is_integer() else [0]
+                    for v in row:
+                        out += [1, int(v)] if float(v).is_integer() else [0]
+                    inputs.append([3, GEN_CODE[gen], n] + a + b)
+                    outputs.append(out)
+                    descr.append(d)
+                    nev += 1
+                    dist["rcxy"] += 1
     return nev
 
 
@@ -783,25 +898,26 @@ def run_parser(ctx, inputs, outputs, descr, dist):
             continue
         key = "snsShankMap" if enc == 0 else "snsGeomMap"
         d = {"fn": "_map_channels_from_meta", "key": key, "text": text}
-        try:
-            out = parse_impl(text, key)
-        except Exception as e:
+        with guard(ctx, d, "_map_channels_from_meta"):
+            try:
+                out = parse_impl(text, key)
+            except Exception as e:
+                if entries is not None:
+                    ctx.fail("parsing a well-formed map raised %r" % (e,), d, {"clause": "parse"})
+                else:
+                    ctx.disagree("parsing raised %r (the model knows only ValueError)" % (e,), d)
+                continue
             if entries is not None:
-                ctx.fail("parsing a well-formed map raised %r" % (e,), d, {"clause": "parse"})
-            else:
-                ctx.disagree("parsing raised %r (the model knows only ValueError)" % (e,), d)
-            continue
-        if entries is not None:
-            exp = [1, len(entries)] + [int(x) for e_ in entries for x in e_]
-            if out != exp:
-                ctx.fail("a printed site table does not parse back to the table", d, {"clause": "parse"})
-        inputs.append([4] + [ord(c) for c in text])
-        outputs.append(out)
-        descr.append(d)
-        nev += 1
-        dist["map_texts"] += 1
-        dist["map_texts_malformed"] += entries is None
-        dist["map_texts_valueerror"] += out == [0]
+                exp = [1, len(entries)] + [int(x) for e_ in entries for x in e_]
+                if out != exp:
+                    ctx.fail("a printed site table does not parse back to the table", d, {"clause": "parse"})
+            inputs.append([4] + [ord(c) for c in text])
+            outputs.append(out)
+            descr.append(d)
+            nev += 1
+            dist["map_texts"] += 1
+            dist["map_texts_malformed"] += entries is None
+            dist["map_texts_valueerror"] += out == [0]
     return nev
 
 
@@ -906,49 +1022,50 @@ def run_files(ctx, inputs, outputs, descr, dist, tdir):
         f = tdir / ("t%d.ap.meta" % k)
         f.write_bytes(text.encode("ascii"))
         d = {"fn": "geometry_from_meta(read_meta_data(file))", "gen": gen, "text": text}
-        res = {}
-        for srt in (False, True):
-            try:
-                with warnings.catch_warnings():
-                    warnings.simplefilter("ignore")
-                    md = spikeglx.read_meta_data(f)
-                    g, inds = spikeglx.geometry_from_meta(md, return_index=True, sort=srt)
-                    rg = spikeglx.read_geometry(f) if srt else None
-            except Exception as e:
-                res[srt] = ("raise", repr(e))
-                out = [0]
-            else:
-                if g is None:
-                    out = [2]
-                    res[srt] = ("none", None)
+        with guard(ctx, d, "geometry from the file text"):
+            res = {}
+            for srt in (False, True):
+                try:
+                    with warnings.catch_warnings():
+                        warnings.simplefilter("ignore")
+                        md = spikeglx.read_meta_data(f)
+                        g, inds = spikeglx.geometry_from_meta(md, return_index=True, sort=srt)
+                        rg = spikeglx.read_geometry(f) if srt else None
+                except Exception as e:
+                    res[srt] = ("raise", repr(e))
+                    out = [0]
                 else:
-                    cg = canon_geom(g, gen)
-                    offgrid = BAD in cg["row"] or BAD in cg["col"]
-                    out = [3] if offgrid else [1] + flat_geom(cg) + ints(inds)
-                    res[srt] = ("geom", cg, ints(inds))
-                    if srt and canon_geom(rg, gen) != cg:
-                        ctx.fail("read_geometry(file) differs from geometry_from_meta(read_meta_data(file))", d,
-                                 {"clause": "entry_points"})
-            inputs.append([5, 1 if srt else 0] + [ord(c) for c in text])
-            outputs.append(out)
-            descr.append(dict(d, sort=srt))
-            nev += 1
-        f.unlink()
-        dist["file_texts"] += 1
-        dist["file_texts_raise"] += res[False][0] == "raise"
-        dist["file_texts_nogeometry"] += res[False][0] == "none"
-        # oracle: a well-formed file with a version and a table describes exactly that table
-        if has_version and mode in ("table", "dup", "both") and not (gen == "NPultra" and enc == 1):
-            if res[False][0] != "geom":
-                ctx.fail("a well-formed meta file with a site table gives %s" % (res[False][:2],), d,
-                         {"clause": "file_text"})
-            else:
-                cg = res[False][1]
-                keep = [s_ for s_ in sites if split is None or s_[0] == split]
-                got = list(zip(cg["shank"], cg["col"], cg["row"], cg["flag"], cg["x"], cg["y"]))
-                if got != [expected_site(gen, s_) for s_ in keep]:
-                    ctx.fail("the geometry read from the file text does not list the sites of its table", d,
+                    if g is None:
+                        out = [2]
+                        res[srt] = ("none", None)
+                    else:
+                        cg = canon_geom(g, gen)
+                        offgrid = BAD in cg["row"] or BAD in cg["col"]
+                        out = [3] if offgrid else [1] + flat_geom(cg) + ints(inds)
+                        res[srt] = ("geom", cg, ints(inds))
+                        if srt and canon_geom(rg, gen) != cg:
+                            ctx.fail("read_geometry(file) differs from geometry_from_meta(read_meta_data(file))", d,
+                                     {"clause": "entry_points"})
+                inputs.append([5, 1 if srt else 0] + [ord(c) for c in text])
+                outputs.append(out)
+                descr.append(dict(d, sort=srt))
+                nev += 1
+            f.unlink()
+            dist["file_texts"] += 1
+            dist["file_texts_raise"] += res[False][0] == "raise"
+            dist["file_texts_nogeometry"] += res[False][0] == "none"
+            # oracle: a well-formed file with a version and a table describes exactly that table
+            if has_version and mode in ("table", "dup", "both") and not (gen == "NPultra" and enc == 1):
+                if res[False][0] != "geom":
+                    ctx.fail("a well-formed meta file with a site table gives %s" % (res[False][:2],), d,
                              {"clause": "file_text"})
+                else:
+                    cg = res[False][1]
+                    keep = [s_ for s_ in sites if split is None or s_[0] == split]
+                    got = list(zip(cg["shank"], cg["col"], cg["row"], cg["flag"], cg["x"], cg["y"]))
+                    if got != [expected_site(gen, s_) for s_ in keep]:
+                        ctx.fail("the geometry read from the file text does not list the sites of its table", d,
+                                 {"clause": "file_text"})
     return nev
 
 
